@@ -27,12 +27,16 @@ type params struct {
 	Scen string // reconn server idle tnc
 	Kind string // serial tcpclient udpclient | tcpserver udpserver
 	Feed bool   // idle: the peer keeps sending
+	Full bool   // reconn: the full (error kind x position) product per attempt (19^4 scripts)
 }
 
 func (p params) name() string {
 	s := p.Scen + "/" + p.Kind
 	if p.Feed {
 		s += "/receiving"
+	}
+	if p.Full {
+		s += "/full"
 	}
 	return s
 }
@@ -228,7 +232,7 @@ func (e *exec) reconn() {
 		a := attT{ok: vmc.Choose(2, "attempt-ok") == 0}
 		if a.ok {
 			var ek, k int
-			if e.thorough {
+			if e.p.Full {
 				ek, k = vmc.Choose(3, "read-error-kind"), 1+vmc.Choose(3, "fail-at-read")
 			} else {
 				cb := combos[vmc.Choose(len(combos), "error-kind-and-position")]
@@ -643,6 +647,9 @@ func variants(thorough bool) []sx.Variant {
 	var ps []params
 	for _, k := range []string{"serial", "tcpclient", "udpclient"} {
 		ps = append(ps, params{Scen: "reconn", Kind: k})
+		if thorough {
+			ps = append(ps, params{Scen: "reconn", Kind: k, Full: true})
+		}
 	}
 	for _, k := range []string{"serial", "tcpclient", "udpclient"} {
 		ps = append(ps, params{Scen: "late", Kind: k})
@@ -667,7 +674,7 @@ func variants(thorough bool) []sx.Variant {
 		case "server":
 			bound = 1
 		}
-		if thorough {
+		if thorough && !p.Full {
 			bound++
 		}
 		out = append(out, sx.Variant{
